@@ -84,7 +84,8 @@ def faults(rng, lines, nsrc, nnames, hist):
             t = t + B64[32 + rng.below(32)] * rng.range(13, 16) + rng.choice(["A", "B", "", "g"])
         else:
             pos = rng.below(len(t) + 1)
-            ch = rng.choice(["!", "=", " ", "-", "_", "\x7f", "\x00", "é", "ÿ", "€", "\\", '"', "\t", "."])
+            # also characters past U+00FF whose low byte (or a byte of whose encoding) looks like a base64 digit
+            ch = rng.choice(["!", "=", " ", "-", "_", "\x7f", "\x00", "é", "ÿ", "€", "\\", '"', "\t", ".", "\u0141", "\u0167", "\u4e41", "\U00010041", "\u0130"])
             t = t[:pos] + ch + t[pos:]
         text_lines[i][j] = t
         text = ";".join(",".join(l) for l in text_lines)
